@@ -617,3 +617,78 @@ Section UnitBody.
       + rewrite Hstep. reflexivity.
   Qed.
 End UnitBody.
+
+(** ** a whole unit: anchor, branch, multiplier *)
+Definition unit_str (u : unit_t) : pystr :=
+  "["%char :: "#"%char :: u_name u ++ "]"%char :: stail (u_mult u) (u_bond u) ++ "("%char :: flat_map bnode_str (u_body u) ++ closing_str u.
+Definition unit_toks (u : unit_t) : list tok :=
+  TNode (u_name u) (mult_val (u_mult u)) :: osym_tok (u_bond u) ++ TOpen :: body_toks (u_body u)
+  ++ TClose :: concat (repeat (copy_toks u) (digits_nat (u_count u) - 1)) ++ osym_tok (u_after u).
+Definition unit_ok (fo : float_oracle) (u : unit_t) : bool :=
+  name_ok fo (u_name u) && sn_okb (u_mult u) (u_bond u) && negb (is_nil (u_body u))
+  && body_ok fo (oord (u_bond u)) (u_body u)
+  && match rev (u_body u) with b :: _ => negb (is_some (bn_bond b)) | [] => false end
+  && digits_ok (u_count u) && (2 <=? digits_nat (u_count u))%nat.
+Definition unit_nodes (u : unit_t) : nat := Datatypes.S (length (u_body u)).
+
+Lemma unit_sim fo u K : unit_ok fo u = true -> cont K ->
+  forall st x pre pc f, Rel st x -> m_stack x = [] -> s_recipes st = [] ->
+  Forall skipch pre -> pc <> "("%char ->
+  match m_run fo (unit_toks u) x with
+  | Ok x1 => exists st1 pre1,
+      main_loop (unit_nodes u + f) fo pc (pre ++ unit_str u ++ K) st = main_loop f fo "]"%char (pre1 ++ K) st1
+      /\ Forall skipch pre1 /\ Rel st1 x1 /\ s_recipes st1 = [] /\ m_stack x1 = [] /\ m_prev x1 <> None
+  | Err e => main_loop (unit_nodes u + f) fo pc (pre ++ unit_str u ++ K) st = Err e
+  end.
+Proof.
+  intros Hok HK st x pre pc f HR Hstk Hrc Hpre Hpc. unfold unit_ok in Hok.
+  apply andb_prop in Hok as [Hok HN]. apply andb_prop in Hok as [Hok Hd]. apply andb_prop in Hok as [Hok Hlb].
+  apply andb_prop in Hok as [Hok Hbo]. apply andb_prop in Hok as [Hok Hne]. apply andb_prop in Hok as [Hna Hsn].
+  apply Nat.leb_le in HN.
+  set (A := blin false {| bn_name := u_name u; bn_mult := u_mult u; bn_bond := u_bond u |}).
+  assert (HokA : lin_ok fo A = true) by (now apply blin_ok).
+  assert (Hbne : u_body u <> []) by (destruct (u_body u); [discriminate|discriminate]).
+  set (k := "("%char :: flat_map bnode_str (u_body u) ++ closing_str u ++ K).
+  assert (Hk : cont k).
+  { unfold k. destruct (u_body u) as [|b0 r0]; [contradiction|]. cbn [flat_map]. unfold bnode_str at 1. cbn [app]. constructor. }
+  assert (Etext : pre ++ unit_str u ++ K = pre ++ "["%char :: "#"%char :: u_name u ++ "]"%char :: (lin_tail_str A ++ k)).
+  { unfold unit_str, k, A. rewrite blin_tail. cbn [bn_mult bn_bond]. f_equal. cbn [app]. f_equal. f_equal.
+    repeat (rewrite <- app_assoc; cbn [app]). reflexivity. }
+  rewrite Etext. unfold unit_nodes. cbn [plus main_loop].
+  rewrite next_node_skip by (now apply skipch_nob). rewrite next_node_here by (now apply (name_chars fo)).
+  assert (Hpc' : Ascii.eqb (last pre pc) "("%char = l_open A) by (cbn; apply Ascii.eqb_neq; now apply last_skipch).
+  pose proof (node_step_lin fo A k st x (last pre pc) HokA Hk HR Hpc' ltac:(cbn; discriminate) ltac:(cbn; intros C; now elim C)) as Hstep.
+  change (l_name A) with (u_name u) in Hstep.
+  assert (Em : m_run fo (unit_toks u) x
+             = (x1 <- item_effect fo A x ;; m_run fo ([TOpen] ++ body_toks (u_body u) ++ rest_toks u) x1)).
+  { rewrite <- (m_item fo A _ x HokA). unfold A. rewrite blin_toks. unfold unit_toks, bnode_toks, rest_toks. cbn [bn_name bn_mult bn_bond app].
+    reflexivity. }
+  rewrite Em. clear Em.
+  destruct (item_effect fo A x) as [x1|e] eqn:Eeff; cbn [bind]; [|now rewrite Hstep].
+  destruct Hstep as (st1 & Est & HR1 & Hrc1). rewrite Est. cbn [bind].
+  destruct (node_step_attr fo st _ _ _ st1 Est) as (a0 & Ea0 & Eat).
+  (* the machine state behind the anchor *)
+  unfold item_effect in Eeff. cbn [A blin l_name l_open l_mult l_rings l_bond l_close bn_name bn_mult bn_bond] in Eeff.
+  rewrite Ea0 in Eeff. cbn [bind spec_rings snd fst add_cycle_edges] in Eeff.
+  assert (Hn1 : (1 <= mult_val (u_mult u))%nat).
+  { pose proof (sn_okb_ok _ _ Hsn) as Hs. unfold mult_val. destruct (u_mult u); [now destruct Hs as (_ & ? & _)|lia]. }
+  destruct (m_copies_prev (mult_val (u_mult u)) a0 (m_g x) (m_next x) (m_prev x) (m_pend x) Hn1) as (g2 & nx & ak & Ecp & _).
+  rewrite Ecp in Eeff. cbn [bind] in Eeff. injection Eeff as <-.
+  set (x1 := {| m_g := g2; m_next := nx; m_prev := Some ak; m_pend := oord (u_bond u); m_stack := m_stack x; m_rings := m_rings x |}) in *.
+  assert (Hrc1' : s_recipes st1 = []) by (apply Hrc1; [exact Hstk|intros _; exact Hrc]).
+  assert (Hlb' : last_bond_none (u_body u)).
+  { unfold last_bond_none. destruct (rev (u_body u)) as [|z t]; [exact I|]. now destruct (bn_bond z). }
+  pose proof (unit_body fo u ak a0 K Ea0 Hna Hbo Hd HN HK (u_body u) true st1 x1
+                (stail (u_mult u) (u_bond u) ++ ["("%char]) "]"%char f [] Hbne HR1) as Hbody.
+  assert (Hf1 : m_stack x1 = [] /\ m_prev x1 = Some ak /\ s_recipes st1 = [] /\ s_attributes st1 = Some a0 /\ (@nil recipe_entry) = []).
+  { repeat split; try assumption. }
+  specialize (Hbody Hf1). clear Hf1.
+  assert (Hp1 : Ascii.eqb (last (stail (u_mult u) (u_bond u) ++ ["("%char]) "]"%char) "("%char = true) by (now rewrite last_last).
+  assert (Hnob : Forall nob (stail (u_mult u) (u_bond u) ++ ["("%char])).
+  { apply Forall_app; split; [apply skipch_nob; apply stail_skipch; now apply sn_okb_ok|repeat constructor; discriminate]. }
+  specialize (Hbody Hp1 Hnob Hbo Hlb' ltac:(intros es_rest H; exact H)).
+  cbn [app] in Hbody.
+  assert (Etl : lin_tail_str A ++ k = (stail (u_mult u) (u_bond u) ++ ["("%char]) ++ flat_map bnode_str (u_body u) ++ closing_str u ++ K).
+  { unfold A, k. rewrite blin_tail. cbn [bn_mult bn_bond]. rewrite <- app_assoc. reflexivity. }
+  rewrite Etl. exact Hbody.
+Qed.
